@@ -3,6 +3,7 @@ vectorised filter, observation-matrix store provenance and zero-probability disc
 from __future__ import annotations
 
 import ast
+import copy
 from fractions import Fraction
 from typing import Dict, List, Optional, Tuple
 
@@ -12,7 +13,7 @@ from ..callgraph import CallGraph
 from ..cfg import cfg_of
 from ..dag import T, walk, show, simplify
 from ..model import FunctionInfo, AnalysisError, dotted
-from ..pat import Snips
+from ..pat import Snips, fn_defs
 from ..report import Ctx
 from ..tensor import Typer
 from ..util import zero_test, atomic_facts, norm, fn_body_nodes, walk_local, kwarg
@@ -54,10 +55,77 @@ def items_loop_info(lp: ast.For):
     return (ast.unparse(src), None, [], k, v)
 
 
+def pair_target(lp: ast.For) -> Optional[Tuple[str, str]]:
+    """(key var, weight var) of `for k, w in ...`."""
+    t = lp.target
+    if isinstance(t, ast.Tuple) and len(t.elts) == 2 and all(isinstance(e, ast.Name) for e in t.elts):
+        return t.elts[0].id, t.elts[1].id
+    return None
+
+
+def deref(S: Snips, node: ast.AST) -> ast.AST:
+    """the defining expression of a single-assignment temporary (followed through chains of temporaries); the node itself otherwise."""
+    seen = set()
+    while isinstance(node, ast.Name) and isinstance(node.ctx, ast.Load) and node.id in S.defs and node.id not in seen:
+        seen.add(node.id)
+        node = S.defs[node.id]
+    return node
+
+
+def reach(S: Snips, node: ast.AST, seen=None):
+    """every node the value of `node` is built from, looking through single-assignment temporaries."""
+    seen = set() if seen is None else seen
+    for x in ast.walk(node):
+        yield x
+        if isinstance(x, ast.Name) and isinstance(x.ctx, ast.Load) and x.id in S.defs and x.id not in seen:
+            seen.add(x.id)
+            yield from reach(S, S.defs[x.id], seen)
+
+
+def consults(S: Snips, node: ast.AST, method: str) -> bool:
+    """the value of `node` is computed (possibly through temporaries) from a call of `.method(...)`"""
+    return any(isinstance(x, ast.Call) and isinstance(x.func, ast.Attribute) and x.func.attr == method for x in reach(S, node))
+
+
+ARITH = (ast.BinOp, ast.UnaryOp, ast.Constant)
+
+
+def summand(S: Snips, expr: ast.AST, atom_of=None):
+    """sum-of-products normal form of an accumulated value; arithmetic temporaries are resolved, so the form does not depend on
+    which sub-products were named."""
+    return alg.normalise(expr, resolve=S.defs.get, atom_of=atom_of)
+
+
+def abstracted(node: ast.AST, pred, label: str) -> ast.AST:
+    """copy of `node` in which every (outermost) sub-expression satisfying `pred` is replaced by the name `label`."""
+    class Tr(ast.NodeTransformer):
+        def visit(self, n):
+            if isinstance(n, ast.expr) and pred(n):
+                return ast.Name(id=label, ctx=ast.Load())
+            return self.generic_visit(n)
+    return Tr().visit(copy.deepcopy(node))
+
+
+def in_loop_body(fi: FunctionInfo, node: ast.AST) -> bool:
+    """`node` is evaluated once per iteration of some loop of fi (the iterable expression of a loop is not)."""
+    return any(node is x for l in loops_of(fi) for st in l.body + l.orelse for x in ast.walk(st))
+
+
+def stmt_of(fi: FunctionInfo, node: ast.AST) -> ast.AST:
+    """the innermost statement of fi containing `node` (for locating a finding)."""
+    best = None
+    for st in fn_body_nodes(fi):
+        if isinstance(st, ast.stmt) and any(node is x for x in ast.walk(st)):
+            if best is None or any(st is x for x in ast.walk(best)):
+                best = st
+    return best if best is not None else fi.node
+
+
 def rule_filter(ctx: Ctx):
     P = ctx.P
     f = P.method("PartiallyObservableMDP", "state_estimator")
     b, a, o = f.positional_params[1:4]
+    S = Snips(f)
     acc = [n for n in fn_body_nodes(f) if isinstance(n, (ast.AugAssign, ast.Assign)) and isinstance(getattr(n, "target", None) or n.targets[0], ast.Subscript)
            and any(isinstance(l, ast.For) for l in enclosing_loops(f, n))]
     if not acc:
@@ -68,46 +136,57 @@ def rule_filter(ctx: Ctx):
     ctx.check(isinstance(st, ast.AugAssign) and isinstance(st.op, ast.Add), "ACC-1", f, st, "filter: posterior[<successor>] += ... (sum over predecessor states)", "",
               f"`{norm(st)}` overwrites instead of accumulating: when several belief states share a successor only the last contribution survives")
     lps = enclosing_loops(f, st)
-    infos = [items_loop_info(l) for l in lps]
-    if len(infos) != 2 or None in infos:
+    pairs = [pair_target(l) for l in lps]
+    if len(pairs) != 2 or None in pairs:
         ctx.unknown("CALL-1", f, st, "filter loops", "expected `for s, p in b.items(): for ns, q in next_state_dist(s, a).items()`")
         return
-    (src0, m0, a0, s_var, sp), (src1, m1, a1, ns_var, nsp) = infos
-    ctx.check(src0 == b and m0 is None, "CALL-1", f, lps[0], "filter: outer loop enumerates the prior belief", "", f"outer loop enumerates `{src0}`")
-    ctx.check(m1 == "next_state_dist" and a1 == [s_var, a], "CALL-1", f, lps[1], f"filter: successors of next_state_dist(<belief state>, {a})", "",
-              f"inner loop enumerates {m1}({', '.join(a1)}); it must be next_state_dist(<belief state>, <action>)")
-    ctx.check(ast.unparse(tgt.slice) == ns_var, "ACC-1", f, st, "filter: accumulation is keyed by the successor state", "", f"posterior is keyed by `{ast.unparse(tgt.slice)}`, not by the successor `{ns_var}`")
-    # observation likelihood
-    od = [n for n in ast.walk(lps[1]) if isinstance(n, ast.Assign) and isinstance(n.value, ast.Call) and "observation_dist" in ast.unparse(n.value)]
-    ovar = None
-    if od:
-        c = od[0].value
-        ovar = od[0].targets[0].id if isinstance(od[0].targets[0], ast.Name) else None
-        inner = c.func.value if isinstance(c.func, ast.Attribute) and c.func.attr == "prob" else None
-        ok = inner is not None and isinstance(inner, ast.Call) and [ast.unparse(x) for x in inner.args] == [a, ns_var] and [ast.unparse(x) for x in c.args] == [o]
-        ctx.check(ok, "CALL-1", f, od[0], f"filter: likelihood = observation_dist({a}, <successor>).prob({o})", "",
-                  f"likelihood is `{norm(c)}`: the observation kernel must be conditioned on the action and the *successor* state, and evaluated at the observed `{o}`")
+    # roles: pred / w_pred = state and mass enumerated from the prior, succ / w_succ = successor and transition probability
+    (s_var, sp), (ns_var, nsp) = pairs
+    env = {"pred": s_var, "w_pred": sp, "succ": ns_var, "w_succ": nsp}
+    ctx.check(S.m(f"{b}.items()", lps[0].iter) is not None, "CALL-1", f, lps[0], "filter: outer loop enumerates the prior belief", "", f"outer loop enumerates `{norm(deref(S, lps[0].iter))}`")
+    ctx.check(S.m(f"ANY.next_state_dist(pred, {a}).items()", lps[1].iter, env) is not None, "CALL-1", f, lps[1], f"filter: successors of next_state_dist(<belief state>, {a})", "",
+              f"inner loop enumerates `{norm(deref(S, lps[1].iter))}`; it must be next_state_dist(<belief state>, <action>).items()")
+    key = deref(S, tgt.slice)
+    ctx.check(S.m("succ", key, env) is not None, "ACC-1", f, st, "filter: accumulation is keyed by the successor state", "", f"posterior is keyed by `{norm(key)}`, not by the successor `{ns_var}`")
+    # observation likelihood: the factor(s) of the summand that are computed from the observation kernel, however they are named
+    liks: List[ast.AST] = []
+
+    def lik_atom(node):
+        d = deref(S, node)
+        if isinstance(d, ARITH) or isinstance(d, ast.Name) or not consults(S, d, "observation_dist"):
+            return None
+        liks.append(d)
+        return "likelihood"
+    p = summand(S, st.value, lik_atom)
+    if liks:
+        bad = [d for d in liks if S.m(f"ANY.observation_dist({a}, succ).prob({o})", d, env) is None]
+        ctx.check(not bad, "CALL-1", f, stmt_of(f, (bad or liks)[0]), f"filter: likelihood = observation_dist({a}, <successor>).prob({o})", "",
+                  f"likelihood is `{norm(deref(S, (bad or liks)[0]))}`: the observation kernel must be conditioned on the action and the *successor* state, and evaluated at the observed `{o}`")
     else:
-        ctx.violation("CALL-1", f, lps[1], "filter: observation likelihood", "the observation kernel is not consulted")
-    p = alg.normalise(st.value)
-    want = {tuple(sorted(((ovar or "?", 1), (sp, 1), (nsp, 1)))): Fraction(1)}
+        ctx.violation("CALL-1", f, lps[1], "filter: observation likelihood", "the observation kernel does not enter the accumulated mass")
+    want = {tuple(sorted((("likelihood", 1), (sp, 1), (nsp, 1)))): Fraction(1)}
     ctx.check(p == want, "ACC-1", f, st, "filter: summand = b(s) * T(ns|s,a) * O(o|a,ns)", alg.show(p), f"summand normalises to `{alg.show(p)}`")
-    # normalisation
-    tot = [n for n in fn_body_nodes(f) if isinstance(n, ast.Assign) and isinstance(n.value, ast.Call) and ast.unparse(n.value.func) == "sum"]
+    # normalisation.  `total` is a role: any expression that is (a name for) the sum of the accumulated masses
     accname = ast.unparse(tgt.value)
-    ok = bool(tot) and ast.unparse(tot[0].value.args[0]) == f"{accname}.values()"
-    ctx.check(ok, "NORM-1", f, tot[0] if tot else f.node, "filter: total = sum of the accumulated masses", "", "normaliser is not the sum of the accumulated posterior masses")
-    tv = tot[0].targets[0].id if tot else None
+    tot_stmts = [n for n, e in S.find("tot = sum(acc.values())", {"acc": accname}) if isinstance(n, ast.Assign)]
+    tot_names = {n.targets[0].id for n in tot_stmts}
+
+    def is_total(n):
+        return (isinstance(n, ast.Name) and n.id in tot_names) or S.m("sum(acc.values())", n, {"acc": accname}) is not None
+    totals = [n for n in S.exprs if is_total(n)]
+    ctx.check(bool(totals), "NORM-1", f, tot_stmts[0] if tot_stmts else (stmt_of(f, totals[0]) if totals else f.node), "filter: total = sum of the accumulated masses", "",
+              "normaliser is not the sum of the accumulated posterior masses")
     rets = [n for n in fn_body_nodes(f) if isinstance(n, ast.Return)]
-    dc = [c for r in rets for c in ast.walk(r) if isinstance(c, ast.DictComp)]
-    ok = bool(dc) and isinstance(dc[0].value, ast.BinOp) and isinstance(dc[0].value.op, ast.Div) and ast.unparse(dc[0].value.right) == tv \
-        and ast.unparse(dc[0].generators[0].iter) == f"{accname}.items()"
+    dc = [c for r in rets for c in reach(S, r) if isinstance(c, ast.DictComp)]
+    ok = bool(dc) and isinstance(dc[0].value, ast.BinOp) and isinstance(dc[0].value.op, ast.Div) and is_total(dc[0].value.right) \
+        and S.m("acc.items()", dc[0].generators[0].iter, {"acc": accname}) is not None
     ctx.check(ok, "NORM-1", f, dc[0] if dc else f.node, "filter: posterior = mass / total over the accumulated successors", "", "posterior is not each accumulated mass divided by the total")
     if dc:
-        tn = [e.id for e in dc[0].generators[0].target.elts]
-        ctx.check(ast.unparse(dc[0].key) == tn[0] and isinstance(dc[0].value, ast.BinOp) and ast.unparse(dc[0].value.left) == tn[1], "NORM-1", f, dc[0], "filter: key/mass pairing preserved", "", "posterior pairs keys with the wrong masses")
-    z = [n for n in fn_body_nodes(f) if isinstance(n, ast.If) and zero_test(n.test, tv) == "zero"]
-    ok = bool(z) and any(isinstance(b2, ast.Return) and "{}" in ast.unparse(b2) for b2 in z[0].body)
+        kv = S.m("(key, mass)", dc[0].generators[0].target)
+        ctx.check(kv is not None and S.m("key", dc[0].key, kv) is not None and S.m("mass / ANY", dc[0].value, kv) is not None, "NORM-1", f, dc[0],
+                  "filter: key/mass pairing preserved", "", "posterior pairs keys with the wrong masses")
+    z = [n for n in fn_body_nodes(f) if isinstance(n, ast.If) and zero_test(abstracted(n.test, is_total, "TOTAL"), "TOTAL") == "zero"]
+    ok = bool(z) and any(S.m("return ANY({})", b2) is not None or S.m("return {}", b2) is not None for b2 in z[0].body)
     ctx.check(ok, "NORM-1", f, z[0] if z else f.node, "filter: impossible observation -> empty distribution", "", "zero total mass is not mapped to the empty distribution")
     if z and dc:
         cfg = cfg_of(f)
@@ -118,6 +197,7 @@ def rule_predictive(ctx: Ctx):
     P = ctx.P
     f = P.method("PartiallyObservableMDP", "predictive_observation_dist")
     b, a = f.positional_params[1:3]
+    S = Snips(f)
     acc = [n for n in fn_body_nodes(f) if isinstance(n, (ast.AugAssign, ast.Assign)) and isinstance(getattr(n, "target", None) or n.targets[0], ast.Subscript)
            and enclosing_loops(f, n)]
     if not acc:
@@ -127,21 +207,29 @@ def rule_predictive(ctx: Ctx):
     tgt = st.target if isinstance(st, ast.AugAssign) else st.targets[0]
     ctx.check(isinstance(st, ast.AugAssign) and isinstance(st.op, ast.Add), "ACC-1", f, st, "predictive: mass[<observation>] += ...", "", f"`{norm(st)}` overwrites instead of accumulating")
     lps = enclosing_loops(f, st)
-    infos = [items_loop_info(l) for l in lps]
-    if len(infos) != 3 or None in infos:
+    pairs = [pair_target(l) for l in lps]
+    if len(pairs) != 3 or None in pairs:
         ctx.unknown("CALL-1", f, st, "predictive loops", "expected three nested items() loops")
         return
-    (src0, m0, a0, s_var, sp), (src1, m1, a1, ns_var, nsp), (src2, m2, a2, o_var, op) = infos
-    ctx.check(src0 == b, "CALL-1", f, lps[0], "predictive: outer loop enumerates the belief", "", f"enumerates {src0}")
-    ctx.check(m1 == "next_state_dist" and a1 == [s_var, a], "CALL-1", f, lps[1], f"predictive: next_state_dist(<belief state>, {a})", "", f"enumerates {m1}({', '.join(a1)})")
-    ctx.check(m2 == "observation_dist" and a2 == [a, ns_var], "CALL-1", f, lps[2], f"predictive: observation_dist({a}, <successor>)", "",
-              f"enumerates {m2}({', '.join(a2)}): the observation kernel must be conditioned on the action and the successor state")
-    ctx.check(ast.unparse(tgt.slice) == o_var, "ACC-1", f, st, "predictive: keyed by the observation", "", f"keyed by {ast.unparse(tgt.slice)}")
-    p = alg.normalise(st.value)
+    (s_var, sp), (ns_var, nsp), (o_var, op) = pairs
+    env = {"pred": s_var, "succ": ns_var, "obs": o_var}
+    ctx.check(S.m(f"{b}.items()", lps[0].iter) is not None, "CALL-1", f, lps[0], "predictive: outer loop enumerates the belief", "", f"enumerates `{norm(deref(S, lps[0].iter))}`")
+    ctx.check(S.m(f"ANY.next_state_dist(pred, {a}).items()", lps[1].iter, env) is not None, "CALL-1", f, lps[1], f"predictive: next_state_dist(<belief state>, {a})", "",
+              f"enumerates `{norm(deref(S, lps[1].iter))}`")
+    ctx.check(S.m(f"ANY.observation_dist({a}, succ).items()", lps[2].iter, env) is not None, "CALL-1", f, lps[2], f"predictive: observation_dist({a}, <successor>)", "",
+              f"enumerates `{norm(deref(S, lps[2].iter))}`: the observation kernel must be conditioned on the action and the successor state")
+    key = deref(S, tgt.slice)
+    ctx.check(S.m("obs", key, env) is not None, "ACC-1", f, st, "predictive: keyed by the observation", "", f"keyed by {norm(key)}")
+    p = summand(S, st.value)
     want = {tuple(sorted(((sp, 1), (nsp, 1), (op, 1)))): Fraction(1)}
     ctx.check(p == want, "ACC-1", f, st, "predictive: summand = b(s) * T(ns|s,a) * O(o|a,ns)", alg.show(p), f"summand normalises to `{alg.show(p)}`")
     asserts = [n for n in fn_body_nodes(f) if isinstance(n, ast.Assert)]
-    ctx.check(any("isclose" in ast.unparse(x.test) and ", 1)" in ast.unparse(x.test) for x in asserts), "NORM-1", f, asserts[0] if asserts else f.node,
+    accname = ast.unparse(tgt.value)
+
+    def sums_to_one(x):
+        e = S.m("E_close(sum(acc.values()), 1, REST=ANY)", x.test, {"acc": accname})
+        return e is not None and ast.unparse(e["close"]).split(".")[-1] == "isclose"
+    ctx.check(any(sums_to_one(x) for x in asserts), "NORM-1", f, asserts[0] if asserts else f.node,
               "predictive: total mass asserted to be 1", "", "the sum-to-one assertion is gone")
 
 
@@ -159,7 +247,8 @@ def rule_vectorised(ctx: Ctx, typer: Typer):
         t = X.expr(f, es[0])
         n = check_einsums(ctx, t, typer, f)
         # index parameters
-        for sub in ast.walk(es[0]):
+        S = Snips(f)
+        for sub in reach(S, es[0]):
             if isinstance(sub, ast.Subscript) and isinstance(sub.value, ast.Attribute) and sub.value.attr in ("transition_matrix", "observation_matrix"):
                 from ..tensor import MODEL_ARRAYS
                 roles = MODEL_ARRAYS[sub.value.attr]
@@ -174,9 +263,8 @@ def rule_vectorised(ctx: Ctx, typer: Typer):
                                   f"`{it.id}` (an index into the {want} list) selects along axis {k} of {sub.value.attr}, whose role is {roles[k]}")
         if name == "state_estimator_vec":
             # role: `unnorm` is the variable the contraction is stored in
-            S = Snips(f)
             ok = False
-            hit = [(st, e) for st, e in S.find("V_unnorm = np.einsum(REST)") if st.value is es[0]]
+            hit = [(st, e) for st, e in S.find("V_unnorm = np.einsum(REST)") if getattr(st, "value", st) is es[0]]
             if hit:
                 env = {"unnorm": hit[0][1]["unnorm"]}
                 div = S.first("return V_unnorm / V_unnorm.sum()", env)[0]
@@ -244,9 +332,24 @@ def position_source(fi: FunctionInfo, store: ast.AST, e: ast.AST) -> Tuple[Optio
 
 def dist_items_loops(fi: FunctionInfo, dist_method: str) -> List[ast.For]:
     """`for key, prob in <...dist_method...>(args).items()` loops of fi."""
-    return [n for n in fn_body_nodes(fi) if isinstance(n, ast.For) and isinstance(n.iter, ast.Call) and isinstance(n.iter.func, ast.Attribute) and n.iter.func.attr == "items"
-            and not n.iter.args and isinstance(n.iter.func.value, ast.Call) and dist_method in ast.unparse(n.iter.func.value.func)
-            and isinstance(n.target, ast.Tuple) and len(n.target.elts) == 2 and all(isinstance(e, ast.Name) for e in n.target.elts)]
+    return [n for n in fn_body_nodes(fi) if isinstance(n, ast.For) and pair_target(n) is not None and dist_call(fi, n, dist_method) is not None]
+
+
+def dist_call(fi: FunctionInfo, lp: ast.For, dist_method: str) -> Optional[ast.Call]:
+    """the call <...dist_method...>(args) whose .items() the loop enumerates (the distribution / its items view may be named by temporaries)."""
+    defs = fn_defs(fi.node)
+
+    def look(e):
+        seen = set()
+        while isinstance(e, ast.Name) and e.id in defs and e.id not in seen:
+            seen.add(e.id)
+            e = defs[e.id]
+        return e
+    it = look(lp.iter)
+    if not (isinstance(it, ast.Call) and isinstance(it.func, ast.Attribute) and it.func.attr == "items" and not it.args):
+        return None
+    c = look(it.func.value)
+    return c if isinstance(c, ast.Call) and dist_method in ast.unparse(c.func) else None
 
 
 def rule_obs_store(ctx: Ctx, fi: FunctionInfo, what: str, dist_method: str):
@@ -280,7 +383,7 @@ def rule_obs_store(ctx: Ctx, fi: FunctionInfo, what: str, dist_method: str):
         ctx.violation("TEN-4", fi, st, f"{what}: value comes from {dist_method}(...).items()", f"the store is not inside a loop over {dist_method}(...).items()")
         return
     lp = loops[0]
-    call = lp.iter.func.value
+    call = dist_call(fi, lp, dist_method)
     cargs = [x.id if isinstance(x, ast.Name) else None for x in call.args]
     key, val = [e.id for e in lp.target.elts]
     ok = not call.keywords and len(ents) == len(cargs) + 1 and cargs == ents[:len(cargs)] and ents[len(cargs)] == key
@@ -377,98 +480,107 @@ def rule_belief_mdp(ctx: Ctx):
     f = C.methods["next_state_dist"]
     s, a = f.positional_params[1:3]
     S = Snips(f)
-    top = lambda n: n is not None and not enclosing_loops(f, n)            # noqa: E731  (a definition outside every loop)
+    top = lambda n: n is not None and not in_loop_body(f, n)            # noqa: E731  (evaluated once, outside every loop body)
     # roles: `prior` is the variable handed to predictive_observation_dist as the belief, `weights` the variable that call is stored in
     od, env = S.first(f"V_weights = self.pomdp.predictive_observation_dist(V_prior, {a})")
     env = env or {}
     bdef, benv = S.first(f"V_prior = DictDistribution(dict(zip(*{s})))", {k: v for k, v in env.items() if k == "prior"})
     env = {**(benv or {}), **env}
-    ctx.check(top(bdef), "BMDP-1", f, bdef if bdef is not None else f.node, "belief dictionary pairs the belief's states with its probabilities", "", "belief is not rebuilt from the (states, probs) pair")
-    ctx.check(top(od), "BMDP-1", f, od if od is not None else f.node, f"observation weights = predictive_observation_dist(<belief>, {a})", "", "observation weights are not the predictive distribution of this belief and action")
+    ctx.check(top(bdef), "BMDP-1", f, stmt_of(f, bdef) if bdef is not None else f.node, "belief dictionary pairs the belief's states with its probabilities", "", "belief is not rebuilt from the (states, probs) pair")
+    ctx.check(top(od), "BMDP-1", f, stmt_of(f, od) if od is not None else f.node, f"observation weights = predictive_observation_dist(<belief>, {a})", "", "observation weights are not the predictive distribution of this belief and action")
     lps = [l for l in loops_of(f)]
     if lps:
-        info = items_loop_info(lps[0])
-        if info:
-            w_src, w_m, _, o_var, op = info
-            ctx.check(od is not None and w_m is None and w_src == env.get("weights"), "BMDP-2", f, lps[0], "successor beliefs are enumerated over the (observation, weight) pairs of the predictive distribution", "",
-                      f"the loop enumerates `{w_src}`, not the predictive observation distribution of this belief and action")
-            est = [n for n in ast.walk(lps[0]) if isinstance(n, ast.Assign) and "state_estimator" in ast.unparse(n.value)]
-            eenv = S.m(f"V_post = self.pomdp.state_estimator(V_prior, {a}, V_obs)", est[0], {**{k: v for k, v in env.items() if k == "prior"}, "obs": o_var}) if est else None
-            ctx.check(eenv is not None, "BMDP-2", f, est[0] if est else lps[0], f"successor belief = state_estimator(<belief>, {a}, <enumerated observation>)", "",
+        pair = pair_target(lps[0])
+        if pair:
+            o_var, op = pair
+            ctx.check(od is not None and S.m("V_weights.items()", lps[0].iter, {k: v for k, v in env.items() if k == "weights"}) is not None, "BMDP-2", f, lps[0],
+                      "successor beliefs are enumerated over the (observation, weight) pairs of the predictive distribution", "",
+                      f"the loop enumerates `{norm(deref(S, lps[0].iter))}`, not the predictive observation distribution of this belief and action")
+            penv = {**{k: v for k, v in env.items() if k == "prior"}, "obs": o_var}
+            est = S.find(f"V_post = self.pomdp.state_estimator(V_prior, {a}, V_obs)", penv, within=lps[0])
+            anyest = [n for n in ast.walk(lps[0]) if isinstance(n, ast.Call) and isinstance(n.func, ast.Attribute) and n.func.attr == "state_estimator"]
+            ctx.check(bool(est), "BMDP-2", f, stmt_of(f, est[0][0]) if est else (stmt_of(f, anyest[0]) if anyest else lps[0]), f"successor belief = state_estimator(<belief>, {a}, <enumerated observation>)", "",
                       "the successor belief is not the posterior for the same belief, action and enumerated observation")
             acc = [n for n in ast.walk(lps[0]) if isinstance(n, (ast.AugAssign, ast.Assign)) and isinstance(getattr(n, "target", None) or n.targets[0], ast.Subscript)]
             if acc:
                 st = acc[-1]
                 ctx.check(isinstance(st, ast.AugAssign) and isinstance(st.op, ast.Add), "BMDP-2", f, st, "weights of equal successor beliefs are added", "",
                           "two observations leading to the same belief overwrite each other's probability")
-                ctx.check(isinstance(st.value, ast.Name) and st.value.id == op, "BMDP-2", f, st, "weight is the predictive probability of the observation that produced the belief", "", f"weight is `{norm(st.value)}`")
-            post = S.m("V_post = ANY", est[0]) if est else None
-            lay = S.find("V_laid = [V_post.get(V_e, 0.0) for V_e in self.pomdp.state_list]", {"post": post["post"]} if post else {}, within=lps[0])
-            ctx.check(bool(lay), "BMDP-2", f, lay[0][0] if lay else lps[0], "successor belief is laid out over pomdp.state_list (0 for missing states)", "", "successor belief is not laid out over the POMDP's state list")
+                w = deref(S, st.value)
+                ctx.check(isinstance(w, ast.Name) and w.id == op, "BMDP-2", f, st, "weight is the predictive probability of the observation that produced the belief", "", f"weight is `{norm(w)}`")
+            lay = S.find("V_laid = [V_post.get(V_e, 0.0) for V_e in self.pomdp.state_list]", {"post": est[0][1]["post"]} if est else {}, within=lps[0])
+            ctx.check(bool(lay), "BMDP-2", f, stmt_of(f, lay[0][0]) if lay else lps[0], "successor belief is laid out over pomdp.state_list (0 for missing states)", "", "successor belief is not laid out over the POMDP's state list")
             bel = [c for c in ast.walk(lps[0]) if isinstance(c, ast.Call) and ast.unparse(c.func) == "Belief"]
-            ok = bool(bel) and ast.unparse(kwarg(bel[0], "states") or bel[0].args[0]) == "tuple(self.pomdp.state_list)"
+            ok = bool(bel) and S.m("tuple(self.pomdp.state_list)", kwarg(bel[0], "states") or (bel[0].args[0] if bel[0].args else None)) is not None
             ctx.check(ok, "BMDP-2", f, bel[0] if bel else lps[0], "belief states are the POMDP's state list", "", "belief states are not pomdp.state_list")
     # reward
     r = C.methods["reward"]
+    R = Snips(r)
     accs = [n for n in fn_body_nodes(r) if isinstance(n, ast.AugAssign)]
     ok = len(accs) == 2
     if ok:
-        lps = enclosing_loops(r, accs[0])
-        i0, i1 = items_loop_info(lps[0]), items_loop_info(lps[1]) if len(lps) > 1 else None
         inner, outer = (accs[0], accs[1]) if len(enclosing_loops(r, accs[0])) == 2 else (accs[1], accs[0])
         lps = enclosing_loops(r, inner)
-        i0, i1 = items_loop_info(lps[0]), items_loop_info(lps[1])
-        if i0 and i1:
-            p_in = alg.normalise(inner.value)
-            want_in = {tuple(sorted(((f"self.pomdp.reward({i0[3]}, {r.positional_params[2]}, {i1[3]})", 1), (i1[4], 1)))): Fraction(1)}
-            ctx.check(p_in == want_in and i1[1] == "next_state_dist" and i1[2] == [i0[3], r.positional_params[2]], "BMDP-3", r, inner,
-                      "belief reward: inner sum = sum_ns T(ns|s,a) * R(s,a,ns)", alg.show(p_in), f"inner summand is `{alg.show(p_in)}` over {i1[1]}({', '.join(i1[2])})")
-            p_out = alg.normalise(outer.value)
-            want_out = {tuple(sorted(((ast.unparse(inner.target), 1), (i0[4], 1)))): Fraction(1)}
+        i0, i1 = (pair_target(lps[0]), pair_target(lps[1])) if len(lps) == 2 else (None, None)
+        if i0 and i1 and R.m("ANY.items()", lps[0].iter) is not None:
+            ra = r.positional_params[2]
+            renv = {"pred": i0[0], "succ": i1[0]}
+            p_in = summand(R, inner.value, lambda n: "R(s,a,ns)" if R.m(f"self.pomdp.reward(pred, {ra}, succ)", n, renv) is not None else None)
+            want_in = {tuple(sorted((("R(s,a,ns)", 1), (i1[1], 1)))): Fraction(1)}
+            ctx.check(p_in == want_in and R.m(f"ANY.next_state_dist(pred, {ra}).items()", lps[1].iter, renv) is not None, "BMDP-3", r, inner,
+                      "belief reward: inner sum = sum_ns T(ns|s,a) * R(s,a,ns)", alg.show(p_in), f"inner summand is `{alg.show(p_in)}` over `{norm(deref(R, lps[1].iter))}`")
+            p_out = summand(R, outer.value)
+            want_out = {tuple(sorted(((ast.unparse(inner.target), 1), (i0[1], 1)))): Fraction(1)}
             ctx.check(p_out == want_out, "BMDP-3", r, outer, "belief reward: outer sum weights by b(s)", alg.show(p_out), f"outer summand is `{alg.show(p_out)}`")
-            reset = [n for n in ast.walk(lps[0]) if isinstance(n, ast.Assign) and ast.unparse(n.targets[0]) == ast.unparse(inner.target)]
-            ctx.check(bool(reset) and ast.unparse(reset[0].value) == "0", "BMDP-3", r, lps[0], "per-state reward is reset for each belief state", "", "per-state expected reward is not reset between belief states")
-    else:
+            reset = R.find("V_part = 0", {"part": ast.unparse(inner.target)}, within=lps[0])
+            ctx.check(bool(reset), "BMDP-3", r, lps[0], "per-state reward is reset for each belief state", "", "per-state expected reward is not reset between belief states")
+        else:
+            ok = False
+    if not ok:
         ctx.unknown("BMDP-3", r, r.node, "belief reward accumulation", "idiom not recognised")
     # absorption
     ab = C.methods["is_absorbing"]
-    src_ab = ast.unparse(ab.node)
+    A = Snips(ab)
     ifs = [n for n in ast.walk(ab.node) if isinstance(n, ast.If)]
-    zl = [l for l in ast.walk(ab.node) if isinstance(l, ast.For) and isinstance(l.target, ast.Tuple) and len(l.target.elts) == 2 and all(isinstance(e_, ast.Name) for e_ in l.target.elts)]
-    stv, prv = [e_.id for e_ in zl[0].target.elts] if zl else (None, None)
-    facts = atomic_facts([(ifs[0].test, "T")]) if ifs else set()
-    ok = bool(ifs) and bool(zl) and isinstance(ifs[0].test, ast.BoolOp) and isinstance(ifs[0].test.op, ast.And) \
-        and any(zero_test(v_, prv) == "nonzero" for v_ in ifs[0].test.values) \
-        and (f"self.pomdp.is_absorbing({stv})", False) in facts and any(isinstance(b2, ast.Return) and ast.unparse(b2.value) == "False" for b2 in ifs[0].body)
+    zl = [l for l in ast.walk(ab.node) if isinstance(l, ast.For) and pair_target(l) is not None]
+    stv, prv = pair_target(zl[0]) if zl else (None, None)
+    # the test, with "the enumerated state is absorbing in the POMDP" (named or in place) read as one atom
+    test = abstracted(ifs[0].test, lambda n: A.m("self.pomdp.is_absorbing(V_st)", n, {"st": stv}) is not None, "ABSORBING") if ifs and zl else None
+    facts = atomic_facts([(test, "T")]) if test is not None else set()
+    ok = test is not None and isinstance(test, ast.BoolOp) and isinstance(test.op, ast.And) \
+        and any(zero_test(v_, prv) == "nonzero" for v_ in test.values) \
+        and ("ABSORBING", False) in facts and any(A.m("return False", b2) is not None for b2 in ifs[0].body)
     ctx.check(ok, "BMDP-4", ab, ifs[0] if ifs else ab.node, "belief is non-absorbing iff some positive-mass state is non-absorbing", "", "absorption test is not `exists state with prob > 0 and not absorbing -> False`")
     rets = [n for n in ab.node.body if isinstance(n, ast.Return)]
-    ctx.check(bool(rets) and ast.unparse(rets[-1].value) == "True", "BMDP-4", ab, ab.node, "otherwise absorbing", "", "default verdict is not True")
+    ctx.check(bool(rets) and A.m("return True", rets[-1]) is not None, "BMDP-4", ab, ab.node, "otherwise absorbing", "", "default verdict is not True")
     fl = [n for n in ast.walk(ab.node) if isinstance(n, ast.For)]
-    ctx.check(bool(fl) and ast.unparse(fl[0].iter).replace(" ", "") == f"zip(*{ab.positional_params[1]})", "BMDP-4", ab, fl[0] if fl else ab.node, "iterates (state, prob) pairs of the belief", "", "does not iterate the belief's (state, prob) pairs")
+    ctx.check(bool(fl) and A.m(f"zip(*{ab.positional_params[1]})", fl[0].iter) is not None, "BMDP-4", ab, fl[0] if fl else ab.node, "iterates (state, prob) pairs of the belief", "", "does not iterate the belief's (state, prob) pairs")
     # initial belief, actions, discount
     ini = C.methods["initial_state_dist"]
-    src_i = ast.unparse(ini.node)
-    ctx.check("tuple(self.pomdp.state_list)" in src_i and "tuple(self.pomdp.initial_state_vec)" in src_i, "BMDP-5", ini, ini.node, "initial belief = (state_list, initial_state_vec)", "", "initial belief is not the POMDP's initial distribution over its state list")
+    I = Snips(ini)
+    ok = I.has("tuple(self.pomdp.state_list)") and I.has("tuple(self.pomdp.initial_state_vec)")
+    ctx.check(ok, "BMDP-5", ini, ini.node, "initial belief = (state_list, initial_state_vec)", "", "initial belief is not the POMDP's initial distribution over its state list")
     act = C.methods["actions"]
-    ctx.check("self.pomdp.action_list" in ast.unparse(act.node), "BMDP-5", act, act.node, "belief-MDP actions = pomdp.action_list", "", "actions are not the POMDP's")
+    ctx.check(Snips(act).has("self.pomdp.action_list"), "BMDP-5", act, act.node, "belief-MDP actions = pomdp.action_list", "", "actions are not the POMDP's")
     init = C.methods["__init__"]
-    ctx.check("self.discount_rate = pomdp.discount_rate" in ast.unparse(init.node), "BMDP-5", init, init.node, "belief MDP keeps the POMDP's discount rate", "", "discount rate not carried over")
+    pm = init.positional_params[1] if len(init.positional_params) > 1 else "pomdp"
+    ctx.check(Snips(init).has(f"self.discount_rate = {pm}.discount_rate"), "BMDP-5", init, init.node, "belief MDP keeps the POMDP's discount rate", "", "discount rate not carried over")
 
 
 def rule_tracking(ctx: Ctx):
     P = ctx.P
     f = P.method("ValueBasedTabularPOMDPPolicy", "next_agentstate")
     ag, a, o = f.positional_params[1:4]
-    calls = calls_named(f, "state_estimator")
-    ok = bool(calls) and [ast.unparse(x) for x in calls[0].args][1:] == [a, o] and ast.unparse(calls[0].func.value) == "self.pomdp"
-    ctx.check(ok, "TRK-1", f, calls[0] if calls else f.node, f"belief tracker = pomdp.state_estimator(<belief>, {a}, {o})", "", "the tracker does not apply the POMDP's filter with its own (action, observation)")
     S = Snips(f)
+    calls = calls_named(f, "state_estimator")
+    ok = bool(calls) and S.m(f"self.pomdp.state_estimator(ANY, {a}, {o})", calls[0]) is not None
+    ctx.check(ok, "TRK-1", f, calls[0] if calls else f.node, f"belief tracker = pomdp.state_estimator(<belief>, {a}, {o})", "", "the tracker does not apply the POMDP's filter with its own (action, observation)")
     # roles: `prior` = the agent state rebuilt as a distribution, `post` = what the filter returns, `order` = tuple(pomdp.state_list)
     pri, penv = S.first(f"V_prior = DictDistribution(zip(*{ag}))")
     arg0 = calls[0].args[0] if calls and calls[0].args else None
     used = S.m(f"DictDistribution(zip(*{ag}))", arg0) is not None or (pri is not None and S.m("V_prior", arg0, penv) is not None)
-    ctx.check(used, "TRK-1", f, pri if pri is not None else f.node, "prior belief rebuilt from the agent state", "", "prior belief is not the agent state")
-    post = [e["post"] for st, e in S.find("V_post = self.pomdp.state_estimator(REST)") if calls and st.value is calls[0]]
+    ctx.check(used, "TRK-1", f, stmt_of(f, pri) if pri is not None else f.node, "prior belief rebuilt from the agent state", "", "prior belief is not the agent state")
+    post = [e["post"] for st, e in S.find("V_post = self.pomdp.state_estimator(REST)") if calls and getattr(st, "value", st) is calls[0]]
     env = {"post": post[0]} if post else {}
     sol = S.solve(["V_order = tuple(self.pomdp.state_list)", "[V_post.prob(V_ns) for V_ns in V_order]"], env) or \
         S.solve(["V_order = tuple(self.pomdp.state_list)", "(V_post.prob(V_ns) for V_ns in V_order)"], env)
